@@ -1117,12 +1117,41 @@ def amplify(p, returns=True, args=True):
             if fd.get("method") and new and new[0] == "nil":
                 new[0] = s[3][0]
             return ("call", s[1], s[2], new, s[4])
+        if k == "calli":
+            return ("calli", s[1], s[2], s[3], s[4], [at(a) for a in s[5]], s[6], s[7])
         if k == "if":
             return ("if", s[1], go(s[2]), go(s[3]))
         if k == "while":
             return ("while", s[1], go(s[2]))
         if k == "return" and returns:
             return ("return", "nil")
+        return s
+
+    q = dict(p)
+    q["funcs"] = [dict(fd, body=go(fd["body"])) for fd in p["funcs"]]
+    return q
+
+
+def strip_guards(p):
+    """search helper: replace every nil test by an opaque one (so that nothing is protected any more)"""
+    def gc(c):
+        k = c[0]
+        if k == "nonnil":
+            return ("opaque",)
+        if k == "not":
+            return ("not", gc(c[1]))
+        if k in ("and", "or"):
+            return (k, gc(c[1]), gc(c[2]))
+        return c
+
+    def go(s):
+        k = s[0]
+        if k == "seq":
+            return ("seq", go(s[1]), go(s[2]))
+        if k == "if":
+            return ("if", gc(s[1]), go(s[2]), go(s[3]))
+        if k == "while":
+            return ("while", gc(s[1]), go(s[2]))
         return s
 
     q = dict(p)
@@ -1226,3 +1255,79 @@ def _vars_of(s, acc=None):
     elif k == "return":
         a(s[1])
     return acc
+
+
+def conv_witnesses(p):
+    """search helper for C09: for every (interface, implementation) pair of p, small single-package programs in which
+    the pair is witnessed at exactly one kind of conversion site (assignment, function argument, argument of an
+    interface method, return), the implementation returns nil and dereferences its parameters, and the caller passes
+    nil and dereferences the result"""
+    ifaces, impls = p.get("ifaces") or [], p.get("impls") or []
+    out = []
+
+    def base():
+        funcs = [dict(nparams=0, pkg=0, method=False, body=("skip",), ptypes=[], rtype="T", ltypes={}, impl=None)]
+        nimpls = []
+        d = [100]
+        for j, im in enumerate(impls):
+            fs = []
+            for m, md in enumerate(ifaces[im["iface"]]["methods"]):
+                fs.append(len(funcs))
+                body = []
+                for i, ty in enumerate(md["ptypes"]):
+                    if ty == "T":
+                        d[0] += 1
+                        body.append(("deref", d[0], L(i + 1)))
+                body.append(("return", "nil"))
+                funcs.append(dict(nparams=1 + len(md["ptypes"]), pkg=0, method=False, body=M.seq(body),
+                                  ptypes=[("S", j)] + list(md["ptypes"]), rtype="T", ltypes={}, impl=(j, m)))
+            nimpls.append(dict(iface=im["iface"], funcs=fs, pkg=0, valrecv=im.get("valrecv", False)))
+        return dict(funcs=funcs, ginit=[], gpkg=[], npkgs=1, ifaces=ifaces, impls=nimpls)
+
+    def args_for(k, m, conv=None):
+        return [("nil" if ty == "T" else (conv if conv is not None and ty == conv[3] else "nil")) for ty in ifaces[k]["methods"][m]["ptypes"]]
+
+    for j, im in enumerate(impls):
+        k = im["iface"]
+        for m in range(len(ifaces[k]["methods"])):
+            call = lambda xi, cs, d: ("calli", L(0), xi, k, m, ["nil"] * len(ifaces[k]["methods"][m]["ptypes"]), cs, d)
+            # assignment
+            q = base()
+            q["funcs"][0]["ltypes"] = {40: ("I", k)}
+            q["funcs"][0]["body"] = M.seq([("assign", L(40), ("conv", k, j)), call(L(40), 1, 1), ("deref", 2, L(0))])
+            out.append(("assign", q))
+            # argument of a function
+            q = base()
+            f1 = len(q["funcs"])
+            q["funcs"].append(dict(nparams=2, pkg=0, method=False, ptypes=[("I", k), "T"], rtype="T", ltypes={}, impl=None,
+                                   body=M.seq([("calli", L(2), L(0), k, m, ["nil"] * len(ifaces[k]["methods"][m]["ptypes"]), 1, 1), ("return", L(2))])))
+            q["funcs"][0]["body"] = M.seq([("call", L(0), f1, [("conv", k, j), "nil"], 2), ("deref", 2, L(0))])
+            out.append(("funcarg", q))
+            # return
+            q = base()
+            f1 = len(q["funcs"])
+            q["funcs"].append(dict(nparams=0, pkg=0, method=False, ptypes=[], rtype=("I", k), ltypes={}, impl=None,
+                                   body=M.seq([("return", ("conv", k, j))])))
+            q["funcs"][0]["ltypes"] = {40: ("I", k)}
+            q["funcs"][0]["body"] = M.seq([("call", L(40), f1, [], 2), call(L(40), 1, 1), ("deref", 2, L(0))])
+            out.append(("return", q))
+            # argument of an interface method whose parameter has type I_k
+            for a, ia in enumerate(ifaces):
+                for ma, md in enumerate(ia["methods"]):
+                    if ("I", k) not in md["ptypes"]:
+                        continue
+                    js = [ja for ja, ima in enumerate(impls) if ima["iface"] == a]
+                    if not js:
+                        continue
+                    q = base()
+                    ja = js[0]
+                    fimpl = q["impls"][ja]["funcs"][ma]
+                    pi = md["ptypes"].index(("I", k))
+                    # the implementation of I_a.M_ma calls M_m on its I_k parameter with nil and returns the result
+                    q["funcs"][fimpl]["body"] = M.seq([("calli", L(30), L(pi + 1), k, m, ["nil"] * len(ifaces[k]["methods"][m]["ptypes"]), 3, 3), ("return", L(30))])
+                    q["funcs"][0]["ltypes"] = {40: ("I", a)}
+                    args = ["nil" if ty == "T" else "nil" for ty in md["ptypes"]]
+                    args[pi] = ("conv", k, j)
+                    q["funcs"][0]["body"] = M.seq([("assign", L(40), ("conv", a, ja)), ("calli", L(0), L(40), a, ma, args, 1, 1), ("deref", 2, L(0))])
+                    out.append(("ifacearg", q))
+    return out
